@@ -18,9 +18,12 @@ const (
 	clsGetFail
 	clsRuntimeFail
 	clsLoadedMovable // small load that fits on a front shard (scale-down transfer candidate)
+	clsOverBig       // process-overloaded by two targets none of which fits anywhere else (60+60 next to loaded shards)
+	clsOverSmall     // process-overloaded by targets that can be relieved (90 + 30)
+	clsIdleExpiredStale // idle for long, but its Prometheus still reports 65 stale head series
 )
 
-var clsNames = []string{"loaded", "idle-recent", "idle-expired", "not-ready", "out-of-sync", "get-fail", "runtime-fail", "loaded-small"}
+var clsNames = []string{"loaded", "idle-recent", "idle-expired", "not-ready", "out-of-sync", "get-fail", "runtime-fail", "loaded-small", "overloaded-stuck", "overloaded-relievable", "idle-expired-stale-head"}
 
 func c07Shard(cls int, idx int) (h1.Shard, []h1.Tgt) {
 	s := h1.Shard{Ready: true}
@@ -36,10 +39,23 @@ func c07Shard(cls int, idx int) (h1.Shard, []h1.Tgt) {
 		load(60)
 	case clsLoadedMovable:
 		load(30)
+	case clsOverBig, clsOverSmall:
+		a, b := int64(95), int64(95)
+		if cls == clsOverSmall {
+			a, b = 75, 30
+		}
+		h := uint64(100 + idx)
+		s.Status = map[uint64]h1.St{h: {Health: "up", Times: 5, Series: a, Total: a}, h + 50: {Health: "up", Times: 5, Series: b, Total: b}}
+		s.Head, s.Proc = a+b, a+b
+		ts = append(ts, h1.Tgt{Hash: h, Job: "j", Discovered: true, Explore: &h1.St{Health: "up", Series: a, Total: a}},
+			h1.Tgt{Hash: h + 50, Job: "j", Discovered: true, Explore: &h1.St{Health: "up", Series: b, Total: b}})
 	case clsIdleRecent:
 		s.IdleAgoSec = i64p(10)
 	case clsIdleExpired:
 		s.IdleAgoSec = i64p(7200)
+	case clsIdleExpiredStale:
+		s.IdleAgoSec = i64p(7200)
+		s.Head = 65
 	case clsNotReady:
 		s.Ready = false
 		load(30)
@@ -68,11 +84,11 @@ var c07Unscraped = [][]h1.St{
 
 func c07Gen(c *chk.Ctx) func(emit func(*h1.Scenario)) {
 	maxN := 3
-	classes := []int{clsLoaded, clsIdleRecent, clsIdleExpired, clsNotReady, clsOutOfSync, clsGetFail}
+	classes := []int{clsLoaded, clsIdleRecent, clsIdleExpired, clsNotReady, clsOutOfSync, clsGetFail, clsOverBig, clsOverSmall}
 	heads := []int64{0}
 	if c.Thorough() {
 		maxN = 4
-		classes = append(classes, clsRuntimeFail, clsLoadedMovable)
+		classes = []int{clsLoaded, clsIdleRecent, clsIdleExpired, clsNotReady, clsOutOfSync, clsOverBig, clsOverSmall, clsIdleExpiredStale, clsRuntimeFail, clsLoadedMovable}
 		heads = []int64{0, 100}
 	}
 	type mm struct{ min, max int32 }
@@ -92,6 +108,9 @@ func c07Gen(c *chk.Ctx) func(emit func(*h1.Scenario)) {
 				if i == n {
 					for ui, un := range c07Unscraped {
 						for _, m := range mms {
+							if !c.Thorough() && n == 3 && !((m.max == 99) || (m.min == 0 && m.max == 2) || (m.min == 2 && m.max == 3)) {
+								continue // quick: six representative min/max pairs on three shards
+							}
 							for _, idle := range []int64{0, 3600} {
 								for _, head := range heads {
 									for scaleErr := 0; scaleErr < 3; scaleErr++ {
@@ -200,6 +219,33 @@ func c07Oracle(sc *h1.Scenario, o *h1.Obs) []Finding {
 				}
 			}
 			unplaced := eligibleUnplaced(sc, rep, ro)
+			// more space is needed also when an in-sync shard is over the process limit and the cycle moved
+			// nothing off it although every target on it would fit an empty shard
+			for si := range rep.Shards {
+				s := &rep.Shards[si]
+				if !s.InSync() || s.Proc < sc.Opt.MaxProc || sc.Opt.NoRelieve {
+					continue
+				}
+				moved := false
+				if p := h1.TargetsPost(ro.Reqs[si]); p != nil {
+					for _, e := range h1.Posted(p) {
+						if e.State == "in_transfer" {
+							moved = true
+						}
+					}
+				}
+				fits := true
+				var sumT int64
+				for _, st := range s.Status {
+					if st.Total >= sc.Opt.MaxProc || st.State != "" || st.Health != "up" || st.Times < 3 {
+						fits = false
+					}
+					sumT += st.Total
+				}
+				if !moved && fits && sumT > sc.Opt.MaxProc {
+					unplaced = append(unplaced, 1000000+uint64(si)) // marker: shard si still needs space
+				}
+			}
 			for k, arg := range ro.Scales {
 				call := "final"
 				if k < len(ro.Scales)-1 || (len(ro.Scales) == 1 && len(rep.ScaleErrAt) > 0 && rep.ScaleErrAt[0] == 0 && earlyCall(sc, rep)) {
